@@ -8,6 +8,7 @@ EXTENDS XzGrepContract, TLC
 
 CONSTANTS MaxOpts,     \* number of option groups before the pattern
           Wide, DoFiles,
+          Cov,         \* small configuration in which every action occurs (for -coverage)
           Big,         \* thorough tier: larger narrow vocabulary
           Strict       \* "none" | "sedctx": which strict (known-deviating) invariant is checked
 
@@ -31,10 +32,10 @@ PatForms == IF Wide
                    <<"--regexp", "@p">>, <<"-f", "@q">>, <<"--file=@q">>, <<"--file", "@q">>, <<"-e", "-@p">>,
                    <<"-e">>, <<"--", "-@p">> }
             ELSE { <<"@p">>, <<"-e", "@p">> }
-FileSeqs == IF Wide
+FileSeqs == IF Cov THEN { <<>>, <<"@1.gz", "@2">> } ELSE IF Wide
             THEN { <<>>, <<"@1.xz">>, <<"@1.gz", "@2">>, <<"@1.lzma", "@2.tbz2", "@3-z">>, <<"-">>, <<"@1", "-">> }
             ELSE { <<>>, <<"@1.xz">>, <<"@1.gz", "@2">>, <<"@1.lzma", "@2.tbz2", "@3-z">> }
-TailOpts == IF Wide THEN { <<>>, <<"-h">>, <<"-H">>, <<"-A", "1">> } ELSE { <<>>, <<"-h">>, <<"-H">> }
+TailOpts == IF Cov THEN { <<>> } ELSE IF Wide THEN { <<>>, <<"-h">>, <<"-H">>, <<"-A", "1">> } ELSE { <<>>, <<"-h">>, <<"-H">> }
 DDs      == IF Wide THEN {<<>>, <<"--">>} ELSE {<<>>}
 
 ArgvSet == { o \o p \o d \o f \o t : o \in OptSeqs(MaxOpts), p \in PatForms, d \in DDs, f \in FileSeqs, t \in TailOpts }
@@ -46,9 +47,19 @@ MCFileStates == IF Strict # "none" THEN { [gr |-> 0, xs |-> "ok"] } ELSE
 
 \* the label probe is irrelevant to the scanner
 MCInit == \E p \in {"xzgrep"}, lab \in (IF DoFiles THEN BOOLEAN ELSE {TRUE}), av \in ArgvSet : InitWith(p, lab, av) /\ ref = RefOf(av)
-MCNext == /\ \/ ScanNext
-             \/ DoFiles /\ ((\E st \in MCFileStates : FileStep(st)) \/ Finish)
-          /\ UNCHANGED ref
+\* one named wrapper per action of the transcription, so that -coverage reports them separately
+MScanCluster == ScanCluster /\ UNCHANGED ref
+MScanEqForm == ScanEqForm /\ UNCHANGED ref
+MScanTakeArg == ScanTakeArg /\ UNCHANGED ref
+MScanMissingArg == ScanMissingArg /\ UNCHANGED ref
+MScanDashDash == ScanDashDash /\ UNCHANGED ref
+MScanOption == ScanOption /\ UNCHANGED ref
+MScanOperand == ScanOperand /\ UNCHANGED ref
+MScanEnd == ScanEnd /\ UNCHANGED ref
+MPost == Post /\ UNCHANGED ref
+MFileStep == DoFiles /\ (\E st \in MCFileStates : FileStep(st)) /\ UNCHANGED ref
+MFinish == DoFiles /\ Finish /\ UNCHANGED ref
+MCNext == MScanCluster \/ MScanEqForm \/ MScanTakeArg \/ MScanMissingArg \/ MScanDashDash \/ MScanOption \/ MScanOperand \/ MScanEnd \/ MPost \/ MFileStep \/ MFinish
 MCSpec == MCInit /\ [][MCNext]_<<vars, ref>>
 
 StrictInv == CASE Strict = "sedctx" -> SedContextStrict
